@@ -127,7 +127,15 @@ class PycodeSerializer:
             return
 
         next_level = level + 1
-        opening, closing = ("(", ")") if isinstance(obj, tuple) else ("[", "]")
+        if isinstance(obj, tuple):
+            opening, closing = "(", ")"
+        elif isinstance(obj, frozenset):
+            opening, closing = "frozenset({", "})"
+        elif isinstance(obj, set):
+            opening, closing = "{", "}"
+        else:
+            opening, closing = "[", "]"
+
         yield f"{opening}\n"
         for val in obj:
             yield spaces * next_level
